@@ -210,6 +210,9 @@ def enc(key, v, flavour):
     return f'{_PFX[key]}{int(v):02d}'
 
 
+_TIME_CACHE = {}
+
+
 def enc_time(fr):
     tf = CTX['time']
     if tf == 's' and fr.denominator == 1:
@@ -226,6 +229,10 @@ def _dec_time(x, tol_scale=1.0, what='time'):
         if len(s) >= 2 and s[0] == 't' and s[1:].isdigit():
             return Fraction(int(s[1:]))
         raise ProjectionError(what, f'time label {x!r}')
+    ck = (CTX['time'], float(x), tol_scale)
+    fr = _TIME_CACHE.get(ck)
+    if fr is not None:
+        return fr
     a, b, tol = _TIMEMAP[CTX['time']]
     y = (float(x) - a) / b
     if not np.isfinite(y):
@@ -233,6 +240,8 @@ def _dec_time(x, tol_scale=1.0, what='time'):
     fr = Fraction(y).limit_denominator(MAXDEN)
     if abs(float(fr) - y) > tol * tol_scale:
         raise ProjectionError(what, f'{x!r} is not a mean of source time points (flavour {CTX["time"]})')
+    if len(_TIME_CACHE) < 100000:
+        _TIME_CACHE[ck] = fr
     return fr
 
 
